@@ -214,6 +214,8 @@ func doSet[T comparable](c codec[T], fn string, ss [][]int) (o obs) {
 	defer guard(&o)
 	arrs, args := mkargs(c, ss)
 	before := snapshot(c, arrs)
+	// the outer slice handed over with `args...` is an input as well: same headers, same order afterwards
+	outer := append([][]T(nil), args...)
 	var r []T
 	switch fn {
 	case "distinct":
@@ -227,7 +229,23 @@ func doSet[T comparable](c codec[T], fn string, ss [][]int) (o obs) {
 	case "disjoin":
 		r = sliceOps.Disjoin(args...)
 	}
-	return obs{Ret: decL(c, r), ArgsSame: reflect.DeepEqual(before, snapshot(c, arrs))}
+	return obs{Ret: decL(c, r), ArgsSame: reflect.DeepEqual(before, snapshot(c, arrs)) && sameHeaders(outer, args)}
+}
+
+// sameHeaders: b holds, position by position, the very slices a held (same nil-ness, length, capacity and first element)
+func sameHeaders[T any](a, b [][]T) bool {
+	if len(a) != len(b) {
+		return false
+	}
+	for i := range a {
+		if (a[i] == nil) != (b[i] == nil) || len(a[i]) != len(b[i]) || cap(a[i]) != cap(b[i]) {
+			return false
+		}
+		if cap(a[i]) > 0 && &a[i][:1][0] != &b[i][:1][0] {
+			return false
+		}
+	}
+	return true
 }
 
 type gen struct {
